@@ -172,7 +172,11 @@ func (b *book) setProblems(idx int64) (e *eonRec, problems []string, outOfRange 
 	return
 }
 
-func tsBefore(ts int64, t uint64) bool    { return ts < 0 || uint64(ts) < t }
+// tsBefore: the release time, as the registry contract means it, is strictly before block time
+// t. The contract's release time is a uint64 and the table stores int64(release time), so the
+// contract's value is uint64(stored): a negative stored value is a release time >= 2^63.
+func tsBefore(ts int64, t uint64) bool { return uint64(ts) < t }
+
 func actReached(act int64, n uint64) bool { return act < 0 || uint64(act) <= n }
 
 // justify says why identity id may be inside a trigger with block number trigBlock emitted
@@ -231,7 +235,7 @@ func (h *hist) justifyIn(id []byte, trigBlock, n, t uint64, only *int64, checkTr
 				ps = append(ps, "wrong-trigger-block")
 			}
 		}
-		if consider(ps, fmt.Sprintf("time registration key %d (keyper set %d, release time %d)", r.key, r.eon, r.ts)) {
+		if consider(ps, fmt.Sprintf("time registration key %d (keyper set %d, release time %d, stored as %d)", r.key, r.eon, uint64(r.ts), r.ts)) {
 			return "", "", r.eon, true
 		}
 	}
@@ -494,6 +498,9 @@ func (h *hist) judgeBlock(op opSpec, ob stepObs) {
 				why = "before-activation"
 			}
 			h.run.Dist["withheld:"+why]++
+		}
+		if r.ts < 0 {
+			h.run.Dist["release-time>=2^63(undecrypted-at-block)"]++
 		}
 		switch {
 		case r.ts >= 0 && uint64(r.ts) == op.T:
